@@ -217,10 +217,13 @@ def systematic_resample(
     positions = (np.random.random() + np.arange(size)) / size
 
     j = 0
+    # Rounding can leave the cumulative sum just below the last comb position;
+    # never advance past the last index that carries weight.
+    j_max = int(np.flatnonzero(weights)[-1])
     cumulative_sum = weights[0]
     indeces = np.empty(size, dtype=int)
     for i in range(size):
-        while positions[i] > cumulative_sum:
+        while positions[i] > cumulative_sum and j < j_max:
             j += 1
             cumulative_sum += weights[j]
         indeces[i] = j
